@@ -336,6 +336,24 @@ P("C18",
   assumptions=["zero-area movable cells are not judged by the computeCellExpansion clause ('intersects' is ambiguous for them)"])
 
 
+P("C08",
+  variants=["san", "tsan"],
+  rc={"quick": (10, 300, 100, 8), "thorough": (10, 4000, 100, 8)},
+  budget={"quick": 150, "thorough": 1800},
+  case_timeout=200,
+  rule=CIRCUIT_RULE + GLOBAL_DOMAIN + "Stage in {placeGlobal (5/9), legalize, placeDetailed}; noise > 0 in two thirds of the "
+       "global cases. Oracle: bitwise equality of Circuit::solution() between the reference run and: a repeated run, a run on "
+       "a copy, a run with an observing callback, a run after an unrelated placement in the same process, runs under the "
+       "schedules x-then-y / y-then-x / jitter imposed through the COLOQUINTE_VERIF hook (two-party barrier on entry, then the "
+       "other solve is held until the requested one has exited; jitter sleeps 0..3 ms on entry and exit), and a run pinned to "
+       "one CPU. The tsan build of the same property runs the schedules under ThreadSanitizer with halt_on_error. non-trivial "
+       "= global placement with >= 2 hooked solve pairs, >= 3 lower-bound steps and noise > 0; for the other stages a cell "
+       "moved; distinct = hash of circuit and stage.",
+  assumptions=["the hook only delays threads, it never kills them; a wait that exceeds 20 s gives up and is counted",
+               "xtopo_ is declared before ytopo_ in GlobalPlacer, so the lower address is the x model",
+               "ThreadSanitizer judges the executions actually produced; an interleaving needing a pre-emption inside Eigen's CG loop is out of reach"])
+
+
 # ----------------------------------------------------------------------------
 def sh(cmd, **kw):
     return subprocess.run(cmd, stdout=subprocess.PIPE, stderr=subprocess.STDOUT, text=True, **kw)
